@@ -63,6 +63,7 @@ type Tokenizer struct {
 	tokenAvail       int
 	token            [2]Token
 	line             Line
+	tokenLine        Line
 	number           Matcher
 	identifier       Matcher
 	operatorDetector OperatorDetector
@@ -179,8 +180,9 @@ func (t *Tokenizer) Next() Token {
 	}
 }
 
+// getLine returns the line the current token starts at
 func (t *Tokenizer) getLine() Line {
-	return t.line
+	return t.tokenLine
 }
 
 func (t *Tokenizer) run(tokens chan<- Token) {
@@ -188,7 +190,11 @@ func (t *Tokenizer) run(tokens chan<- Token) {
 	lastWasBlank := false
 	for {
 		thisTokenType := tInvalid
-		switch n := t.next(true); n {
+		n := t.next(true)
+		// The line is recorded when the token starts. Reading the token may skip a
+		// directly following comment, which increases the line counter.
+		t.tokenLine = t.line
+		switch n {
 		case '\n':
 			t.line++
 			lastWasBlank = true
